@@ -6,7 +6,10 @@ angle_tree_preparation,state_tree_preparation}.py, qclib/gates/ucr.py.
 import cmath
 import contextlib
 import math
+import os
 import numpy as np
+
+import framework
 
 CLAIMED = True
 TECHNIQUE = ("Lean 4 proofs by induction on the tree, all n and all splits: widths, allocation and read-safety of add_register, "
@@ -35,12 +38,16 @@ LEVEL_NOTE = ("Trusted: Lean kernel (standard axioms); hand model <-> code beyon
               "zeros or well away from 0).")
 LEAN_TARGETS = ["QclibModel.Props.C11"]
 THEOREMS = ["Qclib.C11_width", "Qclib.C11_alloc", "Qclib.C11_s_eq_n", "Qclib.C11_s_eq_n_state", "Qclib.C11_marginal",
-            "Qclib.C11_marginal_dcsp", "Qclib.C11_topdown_block", "Qclib.C11_marginal_ingredients"]
+            "Qclib.C11_marginal_dcsp", "Qclib.C11_topdown_block", "Qclib.C11_marginal_ingredients",
+            "Qclib.C11_split_src", "Qclib.C11_declared_src", "Qclib.C11_dcsp_src"]
 TRUSTED = [
     "abs(complex) and cmath.phase: leaf (mag,arg) are taken from the real state tree and re-checked against sqrt(re^2+im^2), atan2 to 1e-12",
     "qiskit ry/rz/cx/cswap matrices equal matRY/matRZ/X/controlled swapBits of Sem/Denote.lean (validated numerically each run)",
     "float: `x != 0.0`, `mag > 1.0` are exact comparisons in the theorem; generated amplitudes are exact zeros or >= 1e-3",
-    "declared-width functions _get_num_qubits are hand-modelled (bdspDeclared/dcspDeclared/bdspDefaultSplit) and tied by value, not translated from source",
+    "tools/py2lean.py: the default-split statements of BdspInitialize.__init__ and both _get_num_qubits are re-translated from "
+    "the source on every run (Gen/TreeWidth.lean) and proved equal to the hand models bdspDefaultSplit/bdspDeclared/"
+    "dcspDeclared (C11_split_src, C11_declared_src, C11_dcsp_src); the translator is kept honest by the second tie "
+    "(generated definitions run by the driver vs the real constructors, every (len, opt_params) with len <= 2^7)",
 ]
 ASSUMPTIONS = ["exact real arithmetic in the theorems; implementation compared to 1e-7 (tie) / 1e-7 (oracle)",
                "all tree wires start in |0>"]
@@ -48,6 +55,66 @@ RULE = ("tie: (class, n, split-or-default, vector) whose allocation table, width
         "Lean model; oracle: exact marginal of qubits 0..n-1 vs |a_k|^2, width three-way equality, s=n overlap; non-trivial = "
         "n>=2 and at least two non-zero amplitudes")
 DRIVER = "Drivers/C11.lean"
+
+GEN_FILE = os.path.join(framework.LEAN, "QclibModel", "Gen", "TreeWidth.lean")
+GEN_SOURCES = ["qclib/state_preparation/bdsp.py", "qclib/state_preparation/dcsp.py"]
+SRC_THEOREMS = ["Qclib.C11_split_src", "Qclib.C11_declared_src", "Qclib.C11_dcsp_src"]
+
+
+def generate(ctx):
+    """Re-translate the width arithmetic of bdsp.py / dcsp.py from the current source (a refusal raises: broken obligation)."""
+    import py2lean
+    import srctie
+    py2lean.ensure_prelude(framework.LEAN)
+    ns = "Qclib.Gen.TreeWidth"
+    b, d = GEN_SOURCES
+
+    def tb(rel, *a, **k):
+        return py2lean.translate_block(os.path.join(framework.REPO, rel), *a, relpath=rel, **k)
+    blocks = [
+        # everything of __init__ before `self._name = ...` that binds self.split
+        tb(b, "BdspInitialize.__init__", "bdsp_split", ns, result="self.split", stop=r"^self\._name\b",
+           views={"len(params)": "len_params", "opt_params is None": ("opt_none", "Bool"),
+                  "opt_params.get('split')": ("opt_split", "OptInt")}),
+        tb(b, "BdspInitialize._get_num_qubits", "bdsp_num_qubits", ns, result="self.num_qubits",
+           params=[("self.split", "Int")], views={"len(params)": "len_params"}),
+        tb(d, "DcspInitialize._get_num_qubits", "dcsp_num_qubits", ns, result="self.num_qubits",
+           views={"len(params)": "len_params"}),
+    ]
+    text = py2lean.write_module(GEN_FILE, blocks, GEN_SOURCES)
+    srctie.verify(ctx, "QclibModel.Props.C11", SRC_THEOREMS)
+    return {"file": os.path.relpath(GEN_FILE, framework.VERIF), "bytes": len(text),
+            "translated": ["BdspInitialize.__init__ (self.split)", "BdspInitialize._get_num_qubits",
+                           "DcspInitialize._get_num_qubits"]}
+
+
+def gen_width_tie(ctx):
+    """Second tie of the translation: the generated definitions, run by the driver, against the REAL constructors for every
+    length 2..2^7 (powers of two and not) and every way of (not) passing a split."""
+    from qclib.state_preparation.bdsp import BdspInitialize
+    from qclib.state_preparation.dcsp import DcspInitialize
+    lens = [2, 3, 4, 5, 6, 7, 8, 12, 16, 17, 31, 32, 33, 64, 100, 128]
+    for ln in lens:
+        v = np.zeros(ln, dtype=complex)
+        v[0] = 1.0
+        nq = int(math.log2(ln))
+        opts = [("none", None), ("empty", {}), ("split-none", {"split": None})] + [(f"s={s}", {"split": s}) for s in range(1, nq + 1)]
+        try:
+            dc = DcspInitialize(v).num_qubits
+        except Exception as e:
+            dc = f"raised-{type(e).__name__}"
+        for tag, opt in opts:
+            try:
+                g = BdspInitialize(v, opt_params=opt)
+                lines = [f"split {g.split} ;", f"declared {g.num_qubits} ;", f"dcsp {dc} ;"]
+            except Exception as e:
+                lines = [f"raised {type(e).__name__} ;"]
+            has = opt is not None and opt.get("split") is not None
+            ctx.tie({"op": "gen_widths", "len": ln, "opt_none": opt is None, "has_split": bool(has),
+                     "s": int(opt["split"]) if has else 0}, lines, label=f"translated widths len={ln} opt={tag}",
+                    compare=lambda op, impl, model: None if impl == model else f"impl={impl!r} generated={model!r}")
+            ctx.count("gen-widths")
+
 
 TOL = 1e-7
 DENSE_CAP = 11      # qiskit Statevector
@@ -652,6 +719,7 @@ UNREACHED_JUSTIFIED = {
 
 def run(ctx, nmax=None):
     gate_conventions(ctx)
+    gen_width_tie(ctx)
     nmax = nmax or (5 if ctx.quick else 6)
     ctx.notes.append("amplitudes are exact zeros or have modulus >= 0.2/sqrt(2^n) before normalisation: nothing near the "
                      "`!= 0.0` tests; angles compared to 1e-7 (2*asin near 1 amplifies one ulp to 3e-8)")
@@ -688,6 +756,16 @@ def run(ctx, nmax=None):
 def search(ctx, hints):
     for h in hints:
         op = h["op"]
+        if op.get("op") == "gen_widths":
+            # a disagreement of the translated width arithmetic: evaluate the property at that length / split
+            ln = int(op["len"])
+            if ln >= 2 and ln & (ln - 1) == 0 and ln <= 2 ** 6:
+                n = ln.bit_length() - 1
+                v = make_vector(ctx, n, "complex")
+                s_req = int(op["s"]) if op.get("has_split") else None
+                oracle_case(ctx, "bdsp", v, s_req, "hint-gen-widths", cap_own=OWN_CAP_THOROUGH)
+                oracle_case(ctx, "dcsp", v, None, "hint-gen-widths", cap_own=OWN_CAP_THOROUGH)
+            continue
         v = np.array(op["re"]) + 1j * np.array(op["im"])
         oracle_case(ctx, op["op"], v, None if op["default"] else op["s"], op.get("family", "hint"),
                     cap_own=OWN_CAP_THOROUGH)
